@@ -132,7 +132,7 @@ PROPS["C11"] = {
             {"name": "binaryheap_model_validation", "bound": True, "fn": "std BinaryHeap<Reverse<Task>> vs the trusted Verus model", "doc": "peek = min when; pop removes exactly the peeked element"},
         ],
     }],
-    "floor": {"obligations": 18},
+    "floor": {"obligations": 22},
     "trusted_base": [
         "model of std BinaryHeap<T> (multiset + designated top that is a maximum of Ord; peek shows it, pop removes exactly it, push inserts), std Reverse (flips the order), mpsc::Receiver::try_recv (single consumer, no concurrent sender: pops the head or reports empty; modelled with &mut self) -- heap model validated bounded by Kani on the real BinaryHeap",
         "derive(PartialOrd, Ord) on Time(pub u64) compares the field (OrdSpecImpl for Time is assumed)",
